@@ -37,7 +37,7 @@ _CURVE = ["bec.S256", "bec.KoblitzCurve.Add", "bec.KoblitzCurve.Double", "bec.Ko
 ALL_API = "*"   # every exported function
 ENTRIES = {
     "C01": _CURVE,
-    "C02": ["bec.PrivateKey.Sign", "bec.PrivKeyFromBytes", "bec.Signature.IsEqual", "bec.S256"],
+    "C02": ["bec.PrivateKey.Sign", "bec.PrivKeyFromBytes", "bec.Signature.IsEqual", "bec.Signature.Verify", "bec.S256"],
     "C03": ["bec.Signature.Verify", "bec.S256"],
     "C04": _XK,
     "C05": ["bec.ParsePubKey", "bec.PublicKey.SerialiseCompressed", "bec.PublicKey.SerialiseUncompressed", "bec.PublicKey.SerialiseHybrid",
